@@ -201,6 +201,17 @@ def fixed_corpus():
     gl = element_of(ScalarFunctionSpace('VLk2', e2.domain, kind='l2'), name='glk2')
     return [
         (e2, 'div', (2 * gl * F,), 'corpus:div(2*g*F) g in L2'),
+        # the SAME scalar factor in both arguments of a bilinear operator (seeded change C02-5 counted it once)
+        (e2, 'inner', (2 * F, 2 * G), 'corpus:inner(2*F,2*G)'),
+        (e2, 'inner', (c * F, c * G), 'corpus:inner(c*F,c*G)'),
+        (e2, 'inner', (f * C.grad(F), f * C.grad(G)), 'corpus:inner(f*grad F,f*grad G)'),
+        (e2, 'dot', (3 * c * f * F, 3 * c * f * G), 'corpus:dot(3cf*F,3cf*G)'),
+        (e2, 'cross', (f * F, f * G), 'corpus:cross(f*F,f*G)'),
+        (e2, 'outer', (g * F, g * G), 'corpus:outer(g*F,g*G)'),
+        # numeric and Constant factor together inside a restriction (seeded change C07-6 lost the number)
+        (e2, 'minus', (-c * C.Dn(f),), 'corpus:minus(-c*Dn(f))'),
+        (e2, 'plus', (2 * c * g,), 'corpus:plus(2*c*g)'),
+        (e2, 'minus', (sympy.Rational(1, 2) * c * f * g,), 'corpus:minus(c*f*g/2)'),
         (e2, 'jump', (2 * c,), 'corpus:jump(2*c)'),
         (e2, 'Dn', (c * Constant('c2'),), 'corpus:Dn(c*c2)'),
         (e2, 'convect', (F, f * G), 'corpus:convect(F,f*G)'),
